@@ -669,16 +669,50 @@ theorem src_cia_loaded_once (s : CiaSM.St) (m : String) (o : CiaSM.CObj) (ops : 
   simp only [CiaSM.run, List.foldl_append, List.foldl_cons, List.foldl_nil] at this
   exact this
 
-/-- **cia_both_formats_raise**, about the regenerated `CIACache.__getitem__` (recorded, not required): with a `.db` and a
-    `.cia` file of one pair in the configured directory the first request raises, the second is served the `.db` object -/
-theorem src_cia_both_formats_raise :
+/-- **cia_first_container_served**, about the regenerated `CIACache.__getitem__`: however many containers of the pair lie in
+    the configured path, the request for an uncached pair returns the object built from the FIRST file in scan order that
+    advertises it (directories in path order, `.db` before `.cia`); exactly one constructor call is logged; nothing raises -/
+theorem src_cia_first_container_served (hc : CiaSM.consistent fs) (s : CiaSM.St) (m : String)
+    (hl : CiaSM.lookup s.dict m = none) (e0 : CiaSM.CFile)
+    (hf : (CiaSM.scan fs s.path).find? (fun e => e.disc == m) = some e0) :
+    srcCiaGet fs stem s m =
+      ((s.dict ++ [(m, { id := s.nextId, pair := m, src := some e0.fileId })], (s.log ++ [(m, e0.fileId)], s.nextId + 1)),
+       Except.ok { id := s.nextId, pair := m, src := some e0.fileId }) := by
+  rw [srcCiaGet_eq fs stem hdisc, cia_first_container_served fs hc s m hl e0 hf]
+  rfl
+
+/-- **cia_get_never_dup**, about the regenerated `CIACache.__getitem__`: it raises only `Exception('cia could notn be
+    loaded')` — for a pair without a container in the path, leaving dict and world as they were — never the duplicate
+    exception of `add_cia` -/
+theorem src_cia_get_never_dup (hc : CiaSM.consistent fs) (s : CiaSM.St) (m : String) :
+    ((srcCiaGet fs stem s m).2 = Except.error Py.Err.exception →
+      (CiaSM.step fs s (.get m)).2 = .missing) ∧
+    (CiaSM.lookup s.dict m = none → (CiaSM.scan fs s.path).find? (fun e => e.disc == m) = none →
+      srcCiaGet fs stem s m = (encC s, Except.error Py.Err.exception)) := by
+  rw [srcCiaGet_eq fs stem hdisc]
+  refine ⟨?_, ?_⟩
+  · intro h
+    have hnd := (cia_get_never_dup fs hc s m).1
+    cases hr : (CiaSM.step fs s (.get m)).2 with
+    | served o => rw [hr] at h; simp [respC] at h
+    | missing => rfl
+    | done => simp [CiaSM.step, CiaSM.stepWith] at hr; split at hr <;> (try split at hr) <;> (try split at hr) <;> simp_all
+    | dup => exact absurd hr hnd
+  · intro hl hf
+    rw [(cia_get_never_dup fs hc s m).2 hl hf]
+    rfl
+
+/-- the both-containers directory (`H2-H2.db` beside `H2-H2_2011.cia`), about the regenerated `CIACache.__getitem__`: the
+    first request is served the `.db` object, the next one the same object -/
+theorem src_cia_both_formats_served :
     let fs : List CiaSM.CDir := [[⟨.db, 0, "H2-H2", "H2-H2"⟩, ⟨.cia, 1, "H2-H2", "H2-H2"⟩]]
     let s0 : CiaSM.St := { CiaSM.init with path := some (.single 0) }
-    (srcCiaGet fs stem s0 "H2-H2").2 = Except.error Py.Err.exception ∧
-    (srcCiaGet fs stem (CiaSM.step fs s0 (.get "H2-H2")).1 "H2-H2").2 = Except.ok ⟨0, "H2-H2", some 0⟩ := by
+    (srcCiaGet fs stem s0 "H2-H2").2 = Except.ok ⟨0, "H2-H2", some 0⟩ ∧
+    (srcCiaGet fs stem (CiaSM.step fs s0 (.get "H2-H2")).1 "H2-H2").2 = Except.ok ⟨0, "H2-H2", some 0⟩ ∧
+    (CiaSM.step fs s0 (.get "H2-H2")).1.log = [("H2-H2", 0)] := by
   intro fs s0
   rw [srcCiaGet_eq fs stem hdisc, srcCiaGet_eq fs stem hdisc]
-  constructor <;> decide +kernel
+  refine ⟨?_, ?_, ?_⟩ <;> decide +kernel
 
 end ciacache
 
